@@ -417,6 +417,7 @@ impl<W: Write + io::Seek> ZipWriter<W> {
             self.stats.hasher = Hasher::new();
 
             self.files.push(file);
+            self.writing_raw = false;
         }
         if let Some(keys) = options.encrypt_with {
             let mut zipwriter = crate::zipcrypto::ZipCryptoWriter { writer: core::mem::replace(&mut self.inner, GenericZipWriter::Closed).unwrap(), buffer: vec![], keys };
@@ -465,7 +466,9 @@ impl<W: Write + io::Seek> ZipWriter<W> {
         }
 
         self.writing_to_file = false;
-        self.writing_raw = false;
+        // The last entry is closed now: until the next entry is started its header must not be
+        // recomputed (a retried `finish` after a failure would otherwise patch it from stale statistics).
+        self.writing_raw = true;
         Ok(())
     }
 
